@@ -11,6 +11,7 @@
 from __future__ import annotations
 
 import ast
+import copy
 import importlib.util
 import inspect
 import io
@@ -729,8 +730,16 @@ def impl_source_only(f, op: str):
 def behaves_like(f, lam: ast.AST) -> Tuple[bool, str]:
     """apply the real callable and the recovered lambda to the same sample objects"""
     try:
-        g = eval(compile(ast.fix_missing_locations(ast.Expression(body=lam)), "<recovered>", "eval"),
-                 dict(getattr(f, "__globals__", {})))
+        # captured objects are recorded by value (a Constant holding the object): bind them by a private name
+        lam = copy.deepcopy(lam)
+        ns = dict(getattr(f, "__globals__", {}))
+        for i, n in enumerate([n for n in ast.walk(lam) if isinstance(n, ast.Constant)]):
+            if n.value is not None and n.value is not Ellipsis and not isinstance(n.value, (str, bytes, int, float, complex, bool)):
+                ns["__captured_%d" % i] = n.value
+                n.__class__ = ast.Name
+                n.__dict__.clear()
+                n.__dict__.update(ast.Name(id="__captured_%d" % i, ctx=ast.Load()).__dict__)
+        g = eval(compile(ast.fix_missing_locations(ast.Expression(body=lam)), "<recovered>", "eval"), ns)
     except Exception as e:  # noqa
         return False, "recorded lambda cannot be evaluated: %s" % type(e).__name__
     nargs = f.__code__.co_argcount
